@@ -573,7 +573,7 @@ func run(c *mc.Ctx) {
 	c.Require("ladder/low-order", int64(5*ns))
 	c.Require("ladder/low-order+noncanonical-u", int64(9*ns))
 	c.Require("ladder/curve", int64(20*ns))
-	c.Require("ladder/twist", int64(12*ns))
+	c.Require("ladder/twist", int64(10*ns)) // 10 seed-independent members (the generic values add ~half of theirs)
 	c.Require("ladder/curve+noncanonical-u", int64(20*ns))
 	c.Require("ladder/twist+noncanonical-u", int64(12*ns))
 
@@ -748,21 +748,24 @@ func run(c *mc.Ctx) {
 	// ---------------------------------------------------------------- argument aliasing, in-place iteration, slices of the exported global
 	aliasSpace(c)
 
+	// ---------------------------------------------------------------- audit themes (notes/THEMES.md): every bit length, typed API reuse, entropy readers
+	themes(c)
+
 	// ---------------------------------------------------------------- lengths
-	longS := mc.Bytes(c.Seed, "c07-len-scalar", 0, 70)
-	longU := mc.Bytes(c.Seed, "c07-len-point", 0, 70)
+	longS := mc.Bytes(c.Seed, "c07-len-scalar", 0, 300)
+	longU := mc.Bytes(c.Seed, "c07-len-point", 0, 300)
 	type lp struct{ n, m int }
 	var L []lp
-	for n := 0; n <= 70; n++ {
+	for n := 0; n <= 300; n++ {
 		L = append(L, lp{n, 32})
 	}
-	for m := 0; m <= 70; m++ {
+	for m := 0; m <= 300; m++ {
 		if m != 32 {
 			L = append(L, lp{32, m})
 		}
 	}
-	for _, n := range []int{0, 1, 31, 33, 64} {
-		for _, m := range []int{0, 1, 31, 33, 64} {
+	for _, n := range []int{0, 1, 31, 33, 64, 256} {
+		for _, m := range []int{0, 1, 31, 33, 64, 256} {
 			L = append(L, lp{n, m})
 		}
 	}
@@ -899,7 +902,12 @@ func run(c *mc.Ctx) {
 			}
 		}
 		w.Eval(cls, !ok || !canon || pt.IsIdentity())
-		in := append([]byte{}, b...)
+		in, intact := alphed.Guarded(b)
+		defer func() {
+			if !intact() {
+				w.Fail("caller-memory/EdPublicKeyToX25519", fmt.Sprintf("EdPublicKeyToX25519 wrote to the caller's buffer (%x)", b), nil)
+			}
+		}()
 		out, got := x25519.EdPublicKeyToX25519(ed25519.PublicKey(in))
 		if got != ok {
 			w.Fail("EdPublicKeyToX25519/accept-set", fmt.Sprintf("EdPublicKeyToX25519(%x) ok=%v, but the string decodes=%v", b, got, ok), map[string]string{"bytes": hx(b)})
@@ -919,11 +927,11 @@ func run(c *mc.Ctx) {
 	c.Require("convert-public/accept-identity", 3)
 	c.Require("convert-public/accept-noncanonical", 20)
 	c.Require("convert-public/reject", 500)
-	alphed.Par(c, "convert-public-lengths", 71*2, func(w *mc.W, i int) {
+	alphed.Par(c, "convert-public-lengths", 301*2, func(w *mc.W, i int) {
 		n := i / 2
 		b := make([]byte, n)
 		if i%2 == 1 {
-			copy(b, bytes.Repeat(ref.Base.Encode(), 3))
+			copy(b, bytes.Repeat(ref.Base.Encode(), 10))
 		} else if n > 0 {
 			b[0] = 1
 		}
